@@ -30,9 +30,15 @@ echo "pinned suite missing: $PASS"
 UNP=$(go test -count=1 -ldflags=-checklinkname=0 ./db/ ./dnsserver/ ./fbserver/ ./whoami/ 2>&1 | grep -c "^ok")
 if [ "$UNP" != 4 ]; then UNP=$(go test -count=1 -ldflags=-checklinkname=0 ./db/ ./dnsserver/ ./fbserver/ ./whoami/ 2>&1 | grep -c "^ok"); fi
 echo "unpinned suites ok: $UNP/4"
-mkdir -p $DEST; cp $S/$DEMO $DEST/
-go test -count=1 -ldflags=-checklinkname=0 "$@" > $TMPDIR/with.log 2>&1; WITH=$?
+# DEMO may be a comma separated list of file:dest pairs; CF_DIR = directory (relative to dnsrocks) to run go test in
+IFS=',' read -ra PAIRS <<< "$DEMO"
+for pr in "${PAIRS[@]}"; do
+  f="${pr%%:*}"; d="$DEST"; [[ "$pr" == *:* ]] && d="${pr##*:}"
+  mkdir -p $d; cp $S/$f $d/
+done
+RUNDIR="${CF_DIR:-.}"
+(cd $RUNDIR && go test -count=1 -ldflags=-checklinkname=0 "$@") > $TMPDIR/with.log 2>&1; WITH=$?
 git -C $WT apply -R $S/patch.diff
-go test -count=1 -ldflags=-checklinkname=0 "$@" > $TMPDIR/without.log 2>&1; WITHOUT=$?
+(cd $RUNDIR && go test -count=1 -ldflags=-checklinkname=0 "$@") > $TMPDIR/without.log 2>&1; WITHOUT=$?
 echo "demo with patch: exit $WITH ($(grep -c -- '--- FAIL' $TMPDIR/with.log) FAIL lines); without patch: exit $WITHOUT"
 if [ "$WITH" != 0 ] && [ "$WITHOUT" = 0 ] && [ "${PASS%% *}" = 0 ] && [ "$UNP" = 4 ]; then echo "RESULT $ID CONFIRMED"; else echo "RESULT $ID NOT-CONFIRMED"; tail -5 $TMPDIR/without.log; fi
